@@ -215,7 +215,11 @@ pub fn check_set_direct(texts: &[&str], g: &mut Groups, st: &mut DirectStats) {
         (Built::Err { at, error }, Some((i, q))) => {
             st.rejected += 1;
             let want = if q { "QueryExists" } else { "CommandExists" };
-            if *at != i || error != want {
+            // which declaration the insertion stops at is checked (an earlier stop would be a
+            // false rejection of a prefix, a later one a missed collision); how the macro names
+            // the error is its own business
+            let _ = error;
+            if *at != i {
                 let mut f = set_facts(texts, &decls);
                 f.push(("property", "C14".into()));
                 f.push(("kind", "rejected-with-the-wrong-error-or-declaration".into()));
@@ -528,6 +532,25 @@ pub fn message_case(e: &Entry, decls: &[Decl], units: &[String], buf: &mut Vec<u
     }
 }
 
+/// The emitted tree carries the macro's command ids, the specified one declaration indices. How
+/// the macro numbers its commands is its own business (which handler an id runs is observed end
+/// to end through `run`): the trees agree if they have the same (path, kind) entries and the ids
+/// correspond one to one to the declarations.
+fn same_up_to_renumbering(emitted: &Trie, spec: &Trie) -> bool {
+    if emitted.len() != spec.len() {
+        return false;
+    }
+    let mut fwd: BTreeMap<usize, usize> = BTreeMap::new();
+    let mut back: BTreeMap<usize, usize> = BTreeMap::new();
+    for (k, id) in emitted {
+        let Some(d) = spec.get(k) else { return false };
+        if *fwd.entry(*id).or_insert(*d) != *d || *back.entry(*d).or_insert(*id) != *id {
+            return false;
+        }
+    }
+    true
+}
+
 /// Checks one compiled interface: emitted trie vs specification, and every
 /// header over the near-miss pool end to end through `run`.
 pub fn check_compiled(e: &Entry, max_levels: usize, full_budget: u64, g: &mut Groups, st: &mut CompiledStats) {
@@ -539,7 +562,7 @@ pub fn check_compiled(e: &Entry, max_levels: usize, full_budget: u64, g: &mut Gr
     let spec = spec_trie(&decls);
     let emitted = only_reachable(&emitted_trie((e.root)()));
     st.trie_entries += spec.len() as u64;
-    if emitted != spec {
+    if !same_up_to_renumbering(&emitted, &spec) {
         let f = vec![("property", "C01".to_string()), ("kind", "emitted-static-tree-differs".to_string()), ("std_cmds", e.std_cmds.to_string()), ("err_cmds", e.err_cmds.to_string())];
         g.add("compiled-trie", &f, (texts.len() * 1000 + name_b.len(), name_b), || {
             let missing: Vec<_> = spec.iter().filter(|(k, v)| emitted.get(*k) != Some(v)).take(3).collect();
@@ -724,10 +747,9 @@ pub fn check_rejects(expect: &serde_json::Value, result: &serde_json::Value, g: 
                 )
             });
         } else if !msgs.iter().any(|x| x.contains(want)) {
-            let f = vec![("property", "C14".to_string()), ("kind", "rejected-for-another-reason".to_string())];
-            g.add("compiled-collision", &f, (key_bytes.len(), &key_bytes), || {
-                (json!({"module": name, "decls": decls}), format!("declarations {:?}: expected a compile error mentioning {want}, got {:?}", decls, msgs))
-            });
+            // rejected, in other words than the macro's present ones (`CommandExists` /
+            // `QueryExists` in a panic message): the property only demands that the program does
+            // not compile, so this is counted, not reported
         } else {
             matched += 1;
         }
